@@ -190,15 +190,24 @@ class Conv:
 ONE = p_const(1)
 
 
+ORDER = [0]     # 0: introduced symbols first (default); 1: input symbols first (second attempt)
+
+
 def _rank(v):
     """variable order: introduced symbols (roots, hypotenuses, sines/cosines, signs) are eliminated first"""
     if v.startswith('|'):
         v = v[1:-1]
+    if ORDER[0] == 0:
+        if '!' in v:
+            return 3
+        if v.startswith('s_') or v.startswith('c_'):
+            return 2
+        return 1
     if '!' in v:
-        return 3
-    if v.startswith('s_') or v.startswith('c_'):
         return 2
-    return 1
+    if v.startswith('s_') or v.startswith('c_'):
+        return 1
+    return 3
 
 
 def _mkey(m):
@@ -296,6 +305,26 @@ def reduce(p, rules, n_eqs, budget_s=5.0):
 _EQ_CACHE = {}
 
 
+def triangularise(eqs, budget_s=2.0):
+    """inter-reduce the equations: each one is first rewritten with the rules of the (smaller) ones before it becomes a
+    rule itself. -> (generators G_j, derivations (g_j, multipliers m_jk) with G_j = g_j - sum_k m_jk G_k)"""
+    gens, derivs = [], []
+    rules = []
+    t0 = time.time()
+    for g in sorted(eqs, key=len):
+        if time.time() - t0 > budget_s:
+            raise Fail('triangularisation budget')
+        nf, mult = reduce(g, rules, len(gens), max(0.05, budget_s - (time.time() - t0)))
+        if not nf:
+            continue
+        gens.append(nf)
+        derivs.append((g, mult + [dict()]))
+        for d in derivs[:-1]:
+            d[1].append(dict())
+        rules = make_rules(gens)
+    return gens, derivs
+
+
 def equations_of(constraints, conv):
     eqs = []
     for c in constraints:
@@ -385,21 +414,48 @@ def try_certify(constraints, bad, timeout_ms=4000, budget_s=6.0, tag=None):
             STATS['time'] += time.time() - t0
             return True, dict(kind='identical after normalisation', multipliers=0)
         eqs = equations_of(constraints, conv)
-        rules = make_rules(eqs)
-        nf, mult = reduce(P, rules, len(eqs), budget_s)
+        nf = None
+        for order in (0, 1):
+            ORDER[0] = order
+            try:
+                gens, derivs = triangularise(eqs, budget_s / 4)
+                rules = make_rules(gens)
+                nf, mult = reduce(P, rules, len(gens), budget_s / 4)
+            finally:
+                ORDER[0] = 0
+            if not nf:
+                break
         if nf:
             STATS['nonzero_nf'] += 1
             STATS['time'] += time.time() - t0
             return False, f'normal form not zero ({len(nf)} terms)'
-        # the solver decides the identity  P == sum m_k g_k
+        # the solver decides the identities:  P == sum M_j G_j  and, for every derived generator,
+        # G_j == g_j - sum m_jk G_k  (g_j an equation of the constraints): all without hypotheses
         used = [(k, m) for k, m in enumerate(mult) if m]
+        need = set(k for k, _ in used)
+        changed = True
+        while changed:
+            changed = False
+            for j in list(need):
+                for k, m in enumerate(derivs[j][1]):
+                    if m and k not in need:
+                        need.add(k)
+                        changed = True
+        zg = {j: conv.to_z3(gens[j]) for j in need}
         rhs = z3.RealVal(0)
         for k, m in used:
-            rhs = rhs + conv.to_z3(m) * conv.to_z3(eqs[k])
-        ident = conv.to_z3(P) == rhs
+            rhs = rhs + conv.to_z3(m) * zg[k]
+        idents = [conv.to_z3(P) == rhs]
+        for j in sorted(need):
+            g0, mj = derivs[j]
+            r = conv.to_z3(g0)
+            for k, m in enumerate(mj):
+                if m:
+                    r = r - conv.to_z3(m) * zg[k]
+            idents.append(zg[j] == r)
         s = z3.Solver()
         s.set('timeout', timeout_ms)
-        s.add(z3.Not(ident))
+        s.add(z3.Not(z3.And(idents)))
         t1 = time.time()
         from . import solve as _sv
         r = _sv.guarded_check(s, timeout_ms)
@@ -407,7 +463,7 @@ def try_certify(constraints, bad, timeout_ms=4000, budget_s=6.0, tag=None):
         STATS['time'] += time.time() - t0
         if r == z3.unsat:
             STATS['certified'] += 1
-            return True, dict(kind='certificate', multipliers=len(used), terms=len(P))
+            return True, dict(kind='certificate', multipliers=len(used), generators=len(need), terms=len(P))
         return False, f'solver did not confirm the certificate ({r})'
     except Fail as e:
         STATS['failed_reduce'] += 1
